@@ -374,9 +374,47 @@ pub fn run(ctx: Arc<Ctx>) {
 		MemSource::new("m1", { let mut t = sets[1].1.clone(); t.extend(sets[2].1.clone()); t.into_iter().map(|(k, v)| (k, crate::codec::gzip(&v))).collect() }, TileFormat::BIN, TileCompression::Gzip),
 		MemSource::new("m2", { let mut t = sets[3].1.clone(); t.extend(tilesets::family_dense(9, 250, 250, 8, 8, 9)); t }, TileFormat::BIN, TileCompression::Uncompressed).with_yields(1),
 	];
-	let all_sets: Vec<&TileMap> = sets.iter().map(|s| &s.1).collect();
+	// vector tile sources, written by the independent encoder in the field order of common third-party
+	// encoders (version first, explicit extent), two layers each, one layer name shared between the sources
+	let mvt_tile = |who: &str, k: &Key| -> Vec<u8> {
+		use crate::mvt::{self, feat, layer, point, s};
+		let id = format!("{}", 7 + (k.1 + k.2) % 3);
+		let (l1, l2) = if who == "A" { ("roads", "water") } else { ("water", "pois") };
+		mvt::encode_tile(&[
+			layer(l1, &["id", "src"], vec![s(&id), s(who)], vec![feat(Some(k.1 as u64 * 1000 + k.2 as u64), &[0, 0, 1, 1], 1, point(k.1 as i32 % 4096, k.2 as i32 % 4096))]),
+			layer(l2, &["z"], vec![s(&format!("{}", k.0))], vec![feat(None, &[0, 0], 1, point(5, 5)), feat(Some(2), &[], 1, point(6, 6))]),
+		])
+	};
+	let mut va = TileMap::new();
+	let mut vb = TileMap::new();
+	for (x, y) in [(0u32, 0u32), (1, 0), (0, 1), (1, 1)] {
+		va.insert((1, x, y), mvt_tile("A", &(1, x, y)));
+	}
+	vb.insert((1, 0, 0), mvt_tile("B", &(1, 0, 0)));
+	vb.insert((1, 1, 1), mvt_tile("B", &(1, 1, 1)));
+	vb.insert((2, 3, 3), mvt_tile("B", &(2, 3, 3)));
+	for x in 0..4u32 {
+		for y in 0..4u32 {
+			va.insert((9, 254 + x, 254 + y), mvt_tile("A", &(9, 254 + x, 254 + y)));
+			vb.insert((9, 256 + x, 256 + y), mvt_tile("B", &(9, 256 + x, 256 + y)));
+		}
+	}
+	let mut mem = mem;
+	mem.push(MemSource::new("m3", va.clone(), TileFormat::PBF, TileCompression::Uncompressed));
+	mem.push(MemSource::new("m4", vb.iter().map(|(k, v)| (*k, crate::codec::gzip(v))).collect(), TileFormat::PBF, TileCompression::Gzip).with_yields(1));
+	std::fs::write(work.0.join("c02.csv"), "data_id,name\n7,seven\n8,eight\n").unwrap();
+	let mut all_sets: Vec<&TileMap> = sets.iter().map(|s| &s.1).collect();
+	all_sets.push(&va);
+	all_sets.push(&vb);
 	let fac = pipeline::factory(mem.clone(), &work.0);
 	let mut vpls = vpl_sources(&mem);
+	{
+		let m = |i: usize| format!("from_container filename=\"mem:{i}\"");
+		vpls.push(("pipeline from_vectortiles_merged".into(), format!("from_vectortiles_merged [ {}, {} ]", m(3), m(4)), vec![9]));
+		vpls.push(("pipeline from_vectortiles_merged of filters".into(), format!("from_vectortiles_merged [ {} | filter_zoom max=2, {} ] | filter_bbox bbox=[-180,-85,90,85]", m(3), m(4)), vec![9]));
+		vpls.push(("pipeline vectortiles_update_properties".into(), format!("{} | vectortiles_update_properties data_source_path=\"c02.csv\" layer_name=\"roads\" id_field_tiles=\"id\" id_field_data=\"data_id\"", m(3)), vec![9]));
+		vpls.push(("pipeline overlay of vector sources".into(), format!("from_overlayed [ {}, {} ]", m(4), m(3)), vec![9]));
+	}
 	{
 		// a real versatiles file inside a pipeline
 		let mut src = MemSource::new("mem", sets[2].1.clone(), TileFormat::BIN, TileCompression::Uncompressed);
